@@ -344,6 +344,9 @@ let rec run_op (ctx : ctx) (op : string) : string =
   | "Z" ->
     let z = if f.(2) = "-" then None else Some (unhex f.(2)) in
     on_res (raw_name_from_str (unhex f.(1)) z) (fun v -> "OK:" ^ hex v)
+  | "ZP" ->
+    let z = if f.(3) = "-" then None else Some (unhex f.(3)) in
+    on_res (copy_raw_name_from_str (unhex f.(1)) (unhex f.(2)) z) (fun v -> "OK:" ^ hex v)
   | "R" ->
     (match parse (unhex f.(1)) with
      | Err e -> "PARSE-" ^ err e
